@@ -381,6 +381,10 @@ pub fn known_scenarios(prop: &str) -> Vec<(String, usize, u64)> {
         // a call whose arguments were unresolved on the sender is recorded as sent; on the target its lens fails
         // catchably *before* the state is consumed; the xor fallback then reads the stale call state
         "C04" => vec![(format!(r#"(par (call "{d}" ("svc" "arrempty_1") [] v) (xor (call "{e}" ("svc" "str_2") [v.$.[0]] w) (ap "x" $s)))"#, d = p[3].id, e = p[4].id), 5, 1)],
+        // regression scenario for the repaired defect (fix: commit in /repo): a call that failed inside a stream fold was replayed as
+        // "subgraph incomplete" although the first failure left the subgraph complete, so the instructions after the fold were not
+        // replayed and their pending requests vanished from the data
+        "C07" | "C09" => vec![(format!(r#"(seq (ap 1 $s) (seq (fold $s i (seq (call "{a}" ("svc" "fail_1") [i]) (null))) (call "{a}" ("svc" "str_2") [] w)))"#, a = p[0].id), 3, 1)],
         _ => vec![],
     }
 }
@@ -425,7 +429,7 @@ pub fn run_property(prop: &str, ctx: &mut Ctx, rep: &mut Report) {
         let mut r2 = Rng::new(sseed);
         net.run_random(&mut r2, 40);
         for st in &net.log {
-            let fail = match prop { "C04" => check_c04_step(st), _ => None };
+            let fail = match prop { "C04" => check_c04_step(st), "C07" => check_c07_step(&net, st), "C09" => check_c09_step(st), _ => None };
             if let Some(why) = fail {
                 let input = step_json(&net, st);
                 let key = finding_key(prop, &why, &input);
